@@ -25,12 +25,12 @@ theorem mapM_safe {α β : Type} (f : α → Except Err β) : ∀ (l : List α),
       | error e => rw [hm] at hrest; exact hrest
       | ok bs => simp [Safe, pure, Except.pure]
 
-theorem parseFromModel_safe (blobs : List Bytes) (B : Nat) (hB : ∀ b ∈ blobs, 16 * b.length ≤ B) :
+theorem parseFromModel_safe (blobs : List Bytes) (B : Nat) (hB : ∀ b ∈ blobs, b.length ≤ B) :
     Safe (parseFromModel blobs (some B) Guards.all) :=
   mapM_safe _ blobs (fun b hb => decode_safe_all b 0 B (hB b hb))
 
 /-- **create-from is safe on every installed model** -/
-theorem createFrom_safe (blobs : List Bytes) (B : Nat) (hB : ∀ b ∈ blobs, 16 * b.length ≤ B) :
+theorem createFrom_safe (blobs : List Bytes) (B : Nat) (hB : ∀ b ∈ blobs, b.length ≤ B) :
     Safe (createFrom blobs (some B) Guards.all) := by
   unfold createFrom
   have hp := parseFromModel_safe blobs B hB
@@ -45,7 +45,7 @@ theorem createFrom_safe (blobs : List Bytes) (B : Nat) (hB : ∀ b ∈ blobs, 16
     | error e => rw [hm] at this; exact this
     | ok u => simp [Safe, pure, Except.pure]
 
-theorem capabilities_safe (blob : Bytes) (B : Nat) (hB : 16 * blob.length ≤ B) :
+theorem capabilities_safe (blob : Bytes) (B : Nat) (hB : blob.length ≤ B) :
     Safe (capabilities blob (some B) Guards.all) := by
   unfold capabilities
   have hd := decode_safe_all blob 0 B hB
@@ -66,7 +66,7 @@ theorem capabilities_safe (blob : Bytes) (B : Nat) (hB : 16 * blob.length ≤ B)
     simp [Safe, bind, Except.bind, pure, Except.pure]
 
 /-- **show is safe on every installed blob**, verbose or not -/
-theorem showModel_safe (blob : Bytes) (verbose : Bool) (B : Nat) (hB : 16 * blob.length ≤ B) :
+theorem showModel_safe (blob : Bytes) (verbose : Bool) (B : Nat) (hB : blob.length ≤ B) :
     Safe (showModel blob verbose (some B) Guards.all) := by
   unfold showModel
   have hc := capabilities_safe blob B hB
